@@ -1,7 +1,9 @@
 from __future__ import annotations
 
+import ast
 import hashlib
 import logging
+import operator
 import os
 import re
 import sys
@@ -2025,6 +2027,26 @@ class FortranFile:
         return None
 
 
+# Operators allowed in preprocessor conditions (after textual rewriting)
+PP_UNARY_OPS = {ast.Not: operator.not_, ast.USub: operator.neg, ast.UAdd: operator.pos}
+PP_BINARY_OPS = {
+    ast.Add: operator.add,
+    ast.Sub: operator.sub,
+    ast.Mult: operator.mul,
+    ast.Div: operator.truediv,
+    ast.FloorDiv: operator.floordiv,
+    ast.Mod: operator.mod,
+}
+PP_COMPARE_OPS = {
+    ast.Eq: operator.eq,
+    ast.NotEq: operator.ne,
+    ast.Lt: operator.lt,
+    ast.LtE: operator.le,
+    ast.Gt: operator.gt,
+    ast.GtE: operator.ge,
+}
+
+
 def preprocess_file(
     contents_split: list,
     file_path: str = None,
@@ -2073,13 +2095,46 @@ def preprocess_file(
             out_line = out_line.replace("%$%", "False")
             return out_line
 
+        def evaluate(node):
+            """Evaluate the parsed condition without executing any code: only
+            constants and boolean, comparison and arithmetic operators"""
+            if isinstance(node, ast.Expression):
+                return evaluate(node.body)
+            if isinstance(node, ast.Constant) and isinstance(
+                node.value, (bool, int, float, str)
+            ):
+                return node.value
+            if isinstance(node, ast.BoolOp):
+                result = evaluate(node.values[0])
+                for value in node.values[1:]:
+                    if isinstance(node.op, ast.And):
+                        result = result and evaluate(value)
+                    else:
+                        result = result or evaluate(value)
+                return result
+            if isinstance(node, ast.UnaryOp) and type(node.op) in PP_UNARY_OPS:
+                return PP_UNARY_OPS[type(node.op)](evaluate(node.operand))
+            if isinstance(node, ast.BinOp) and type(node.op) in PP_BINARY_OPS:
+                return PP_BINARY_OPS[type(node.op)](
+                    evaluate(node.left), evaluate(node.right)
+                )
+            if isinstance(node, ast.Compare):
+                left = evaluate(node.left)
+                for op, right in zip(node.ops, node.comparators):
+                    right = evaluate(right)
+                    if not PP_COMPARE_OPS[type(op)](left, right):
+                        return False
+                    left = right
+                return True
+            raise ValueError("unsupported preprocessor expression")
+
         if defs is None:
             defs = {}
         out_line = replace_defined(text)
         out_line = replace_vars(out_line)
         try:
-            line_res = eval(replace_ops(out_line))
-        except:
+            line_res = evaluate(ast.parse(replace_ops(out_line).strip(), mode="eval"))
+        except Exception:
             return False
         else:
             return line_res
